@@ -76,6 +76,18 @@ fn gen_event(id: usize, big_ok: bool) -> (Event, Dispatched) {
     } else {
         data
     };
+    if gen::ratio(1, 12) {
+        // A type with a line break cannot be carried by the `event:` field. The constructor
+        // refuses it (then a plain message is sent instead); should it ever accept one, the
+        // event goes out and the ordinary oracle decides whether the client still recovers
+        // exactly that type and nothing else.
+        let ty = gen::pick(&["tick\n", "tick\r\n", "a\rb", "\n", "a\nb", "tick\r", "\r", "a\r\nb"]).to_string();
+        gen::count("probe.type_with_line_break_offered");
+        if let Ok(ev) = Event::custom(&ty, data.clone()) {
+            return (ev, Dispatched { ty, data: normalise_data(&data) });
+        }
+        return (Event::Message(data.clone()), Dispatched { ty: "message".into(), data: normalise_data(&data) });
+    }
     if gen::ratio(1, 3) {
         let ty = gen::pick(&["t", "", "a:b", " lead", "message", "\u{e9}v", "x y", ":c"]).to_string();
         let ev = Event::custom(&ty, data.clone()).expect("type without newlines");
@@ -631,14 +643,14 @@ pub fn spec() -> PropertySpec {
     PropertySpec {
         id: "C11",
         level: "exploration",
-        rule: "Level 1: Response::event_stream() with the real channel (safina::sync::sync_channel(50)), EventSender, EventReceiver, write_http_response and copy_chunked_async; the response writer future is polled by hand between sender steps, and ONLY when its waker fired (a lost wake-up is a verdict). An enumerated stage runs EVERY interleaving of up to 5 (quick) / 7 (thorough) steps over {writer poll, send, clone, disconnect, drop} for up to 3 senders; the sampled stage draws interleavings of {send(e_i), clone, disconnect, drop, is_connected, writer poll} for 1-4+ senders, 3-26 steps (130 to overrun the queue), with a sink that takes 1..n bytes per call, returns Pending, stalls for half the run, or fails after k bytes (client gone; the response is then dropped as the server does). Event contents over empty, multi-line with LF / CRLF / lone CR, trailing newline, leading space/colon, data:/event:/id:/retry: look-alikes, NUL, BOM, non-ASCII, custom types incl. empty / with colon / leading space, sizes just under the 65528-byte read limit, encoded block sizes of 16 / 256 / 4096 +-2 bytes (digit boundaries of the chunk-size line); each event carries a unique id. Oracle: independent chunked decoder + independent WHATWG event-stream parser; accepted events (sender connected before and after send) must equal dispatched events in order, exactly once, with type and LF-normalised data recovered; no id/retry/unknown field may appear; a send may fail only if the queue can be full or the client is gone; terminating chunk iff all senders gone. Level 2: same through the full simulated server with sender actors, slow clients (back-pressure) and client RST. distinct = hash of the step trace.",
+        rule: "Level 1: Response::event_stream() with the real channel (safina::sync::sync_channel(50)), EventSender, EventReceiver, write_http_response and copy_chunked_async; the response writer future is polled by hand between sender steps, and ONLY when its waker fired (a lost wake-up is a verdict). An enumerated stage runs EVERY interleaving of up to 5 (quick) / 7 (thorough) steps over {writer poll, send, clone, disconnect, drop} for up to 3 senders; the sampled stage draws interleavings of {send(e_i), clone, disconnect, drop, is_connected, writer poll} for 1-4+ senders, 3-26 steps (130 to overrun the queue), with a sink that takes 1..n bytes per call, returns Pending, stalls for half the run, or fails after k bytes (client gone; the response is then dropped as the server does). Event contents over empty, multi-line with LF / CRLF / lone CR, trailing newline, leading space/colon, data:/event:/id:/retry: look-alikes, NUL, BOM, non-ASCII, custom types incl. empty / with colon / leading space / (offered to the constructor) with LF, CRLF or a lone CR inside or at the end, sizes just under the 65528-byte read limit, encoded block sizes of 16 / 256 / 4096 +-2 bytes (digit boundaries of the chunk-size line); each event carries a unique id. Oracle: independent chunked decoder + independent WHATWG event-stream parser; accepted events (sender connected before and after send) must equal dispatched events in order, exactly once, with type and LF-normalised data recovered; no id/retry/unknown field may appear; a send may fail only if the queue can be full or the client is gone; terminating chunk iff all senders gone. Level 2: same through the full simulated server with sender actors, slow clients (back-pressure) and client RST. distinct = hash of the step trace. A quarter of the failing-sink runs use a transient Interrupted error instead of a vanished client: the writer may give up (stream dead) or retry, but never resend part of a chunk.",
         scenarios: vec![
             Scenario { name: "c11.sender_writer", property: "C11", func: l1, runs_quick: 600_000, runs_thorough: 15_000_000, doc: "level 1" },
             Scenario { name: "c11.interleavings", property: "C11", func: interleavings, runs_quick: 13 + 169 + 2197 + 28_561 + 371_293, runs_thorough: 13 + 169 + 2197 + 28_561 + 371_293 + 4_826_809 + 62_748_517, doc: "EVERY interleaving of up to 5 (quick) / 7 (thorough) steps over writer poll and {send, clone, disconnect, drop} of up to 3 senders" },
             Scenario { name: "c11.oversize", property: "C11", func: l1_oversize, runs_quick: 60_000, runs_thorough: 1_000_000, doc: "events may exceed the 65528-byte read buffer" },
             Scenario { name: "c11.server", property: "C11", func: server_level, runs_quick: 120_000, runs_thorough: 3_000_000, doc: "level 2" },
         ],
-        required_probes: vec!["probe.two_or_more_events_delivered", "probe.several_senders", "probe.queue_overrun", "probe.sender_outlived_client", "probe.client_reset_during_stream", "probe.slow_client_backpressure", "probe.block_size_on_digit_boundary"],
+        required_probes: vec!["probe.two_or_more_events_delivered", "probe.several_senders", "probe.queue_overrun", "probe.sender_outlived_client", "probe.client_reset_during_stream", "probe.slow_client_backpressure", "probe.block_size_on_digit_boundary", "probe.type_with_line_break_offered"],
         components: comp,
         assumptions: vec![
             "sender threads are replaced by actors whose steps are atomic: EventSender::send is one non-blocking channel operation",
